@@ -266,11 +266,12 @@ Proof.
     cbn [map]. rewrite (Pc Hc), (IHr Hr). reflexivity.
 Qed.
 
-(* the replacement list of escape_filter_value, as it stands in the source *)
+(* the replacement chain of escape_filter_value, as it stands in the source; the borrowed fast path is
+   sound as long as its guard covers both replaced characters *)
 Lemma filter_value_tables :
-  filter_value_guard = [DQ; BS] /\
-  filter_value_replacements = [(BS, [BS; BS; BS; BS]); (DQ, [BS; BS; DQ])].
-Proof. split; reflexivity. Qed.
+  filter_value_replacements = [(BS, [BS; BS; BS; BS]); (DQ, [BS; BS; DQ])] /\
+  existsb (N.eqb BS) filter_value_guard = true /\ existsb (N.eqb DQ) filter_value_guard = true.
+Proof. repeat split; reflexivity. Qed.
 
 Definition no_dq (v : bytes) : bool := negb (existsb (N.eqb DQ) v).
 
@@ -280,7 +281,7 @@ Proof. apply flat_map_app. Qed.
 (* the code's double escaping is right exactly when there is no double quote to escape *)
 Lemma escape_filter_value_ok v : no_dq v = true -> escape_filter_value v = esc (esc v).
 Proof.
-  intros H. unfold escape_filter_value. destruct filter_value_tables as [-> ->].
+  intros H. unfold escape_filter_value. destruct filter_value_tables as (-> & GB & GD).
   assert (R : fold_left (fun acc cr => replace_byte (fst cr) (snd cr) acc) [(BS, [BS; BS; BS; BS]); (DQ, [BS; BS; DQ])] v
               = esc (esc v)).
   { cbn [fold_left fst snd]. unfold no_dq in H. apply negb_true_iff in H.
@@ -290,9 +291,9 @@ Proof.
     destruct (c =? BS) eqn:E; [apply N.eqb_eq in E; subst c; reflexivity|]. cbn [flat_map app]. rewrite Hc, E. reflexivity. }
   destruct (existsb _ v) eqn:G; [exact R|].
   assert (P : forallb plain v = true).
-  { clear - G. induction v as [|c v IH]; [reflexivity|]. cbn [existsb forallb] in *.
+  { clear - G GB GD. induction v as [|c v IH]; [reflexivity|]. cbn [existsb forallb] in *.
     apply orb_false_iff in G as [G1 G2]. rewrite (IH G2), andb_true_r. unfold plain. apply negb_true_iff.
-    rewrite orb_false_r in G1. apply orb_false_iff in G1 as [A B]. rewrite A, B. reflexivity. }
+    apply orb_false_iff. split; (destruct (c =? _) eqn:E; [apply N.eqb_eq in E; subst c; congruence | reflexivity]). }
   rewrite (esc_plain v P), (esc_plain v P). reflexivity.
 Qed.
 
